@@ -786,7 +786,7 @@ class Diagnoser:
         if not m or kind == "xml" or where in ("#text", "*", "*@*"):
             names += ("markup-text",)
         if cls.startswith("words:"):
-            names = (("bookmark-pref",) if "/nav" in cls else ()) + names + ("optional-word",)
+            names = ("bookmark-pref",) + names + ("optional-word",)
         for name in names:
             after = self._classes(name)
             if after is not None and cls not in after:
